@@ -694,7 +694,7 @@ class SFP(Sym):
 
 def _rv(x):
     f = Fraction(x)
-    return z3.RealVal(f.numerator) / z3.RealVal(f.denominator) if f.denominator != 1 else z3.RealVal(f.numerator)
+    return z3.Q(f.numerator, f.denominator) if f.denominator != 1 else z3.RealVal(f.numerator)
 
 
 _B0 = z3.BoolVal(False)
